@@ -480,5 +480,45 @@ static std::string handleBook(const std::vector<std::string>& a) {
     return "bad-op";
 }
 
+/** pure (de)serialisation kernels: `bookrec ser <key> <cmove> <score> <time>` and `bookrec deser <32 hex digits>` */
+static std::string handleRec(const std::vector<std::string>& a) {
+    if (a.size() == 5 && a[0] == "ser") {
+        U64 key = vToU64(a[1]);
+        long long cm = vToInt(a[2]), score = vToInt(a[3]), time = vToInt(a[4]);
+        if (cm < 0 || cm > 65535 || score < -32768 || score > 32767 || time < 0 || time > 0xffffffffLL) return "bad-op";
+        BookData bd(100, 200, 50);
+        BookNode n(key);
+        Move m; m.setFromCompressed((U16)cm);
+        n.setSearchResult(bd, m, (int)score, (int)time);
+        BookNode::BookSerializeData bsd;
+        n.serialize(bsd);
+        static const char* hx = "0123456789abcdef";
+        std::string r;
+        for (int i = 0; i < 16; i++) { r += hx[bsd.data[i] >> 4]; r += hx[bsd.data[i] & 15]; }
+        return r;
+    }
+    if (a.size() == 2 && a[0] == "deser") {
+        const std::string& h = a[1];
+        if (h.size() != 32) return "bad-op";
+        BookNode::BookSerializeData bsd;
+        for (int i = 0; i < 16; i++) {
+            int v = 0;
+            for (int k = 0; k < 2; k++) {
+                char c = h[2 * i + k];
+                int d = (c >= '0' && c <= '9') ? c - '0' : (c >= 'a' && c <= 'f') ? c - 'a' + 10 : -1;
+                if (d < 0) return "bad-op";
+                v = v * 16 + d;
+            }
+            bsd.data[i] = (U8)v;
+        }
+        BookNode n(0);
+        n.deSerialize(bsd);
+        return vHex(n.getHashKey()) + " " + std::to_string(n.getBestNonBookMove().getCompressedMove()) + " " +
+               std::to_string(n.getSearchScore()) + " " + std::to_string(n.getSearchTime());
+    }
+    return "bad-op";
+}
+
 static VReg regGen("bookgen", handleGen);
+static VReg regRec("bookrec", handleRec);
 static VReg regBook("book", handleBook);
